@@ -165,10 +165,13 @@ def run(ctx, chk):
                 break
             val = stores[-1][3]
             need_syms = {t[0][3], v[0][3]}
+            jg = [c for c in calls if c[1] == JGI]
+            if jg:
+                need_syms.add(jg[0][3])
             have = set()
             _collect(val, have)
             if not all(any(x == y or (y[0] == 's' and x[0] == 's' and y[2].startswith(x[2])) for y in have) for x in need_syms):
-                bad = 'IF update %s does not include the timer and LCD results' % fmt(val)[:160]
+                bad = 'IF update %s does not include the timer, LCD and joypad results' % fmt(val)[:160]
                 break
         if bad:
             chk.fail('C09.4', cfg + ':io', 'IO::run_clock_cycles: %s' % bad, 'src/devices/io.rs', None)
